@@ -36,6 +36,12 @@ sm("C18", "OptIndependence and the FIFO latch checked by TLC; exhaustive sequenc
 sm("C06", "Condition state machine (spec/CondCore.tla, CondMC.tla): TLC checks on every enabled transition that accepted arguments are stored and rejected ones (nil / empty-text / empty-context operators, nil and empty-string expressions, Stack expressions under no-nesting, any expression while Err() is set) leave keyword / operator / expression unchanged, that Valid() is nil exactly under the stated conditions and that String() is empty iff Valid() fails; every transition, all paths to depth 2-3 from Cond(...) and Init(), and random walks are replayed on real Conditions with Keyword / Operator / Expression / Valid / the exact String() text compared; random histories are validated by CondTrace.tla.")
 DESC["C06"]["technique"] = DESC["C06"]["technique"].replace("spec/Stackage.tla", "spec/CondMC.tla (CondCore.tla)").replace("StackageTrace.tla", "CondTrace.tla")
 
+CASES = ("TLC enumeration of exhaustive input families from the TLA+ definition of the function (laws checked on each), "
+         "replayed into the Go package case by case + seeded random inputs evaluated by the Go package and validated by a TLC Check_*.tla module")
+DESC["C02"] = dict(technique=CASES + " (spec/Render.tla, Gen_Render.tla, Check_Render.tla)", design_ref="DESIGN.md section 4 C02",
+   text="The rendering grammar is one recursive TLA+ operator over token sequences (multi-byte runes atomic). TLC enumerates ~27k (quick) / ~500k (thorough) trees in exhaustive families - every per-node option combination on a root and on a nested stack, all child sequences up to width 2-3 over 22 alternatives, depth 3, alias forms - checks the grammar's laws on each, and the real String() must equal the expected token sequence; 4k-40k random trees (depth 3-4, arbitrary token mixes, all options, aliases) rendered by the real code must be accepted by Check_Render.tla.",
+   note="Exhaustive only within the stated families; whitespace other than SP/TAB, nil / unprintable elements and cyclic structures are outside the stated domain; trusts the tree concretiser and the rune<->token table of the harness, TLC and CommunityModules.")
+
 def main():
     commits = subprocess.run(["git", "-C", "/repo", "log", "--format=%h %s", "--grep=^verif:"],
                              stdout=subprocess.PIPE, text=True).stdout.strip().splitlines()
